@@ -357,9 +357,14 @@ def gen_c03_case(rnd, steps, flavour):
             if q < 0.45:
                 sh.emit('del %s %s %s' % (sh.ptok(p), K, sh.key_for(k)))
                 sh.kill(k)
-            elif q < 0.85:
+            elif q < 0.78:
                 sh.emit('delh %s %s %d' % (sh.ptok(p), K, k))
                 sh.kill(k)
+            elif q < 0.85:
+                # by the handle of an entity of this kind that lives somewhere else: nothing may be deleted
+                others = [x for x in sh.live(K) if sh.e[x]['p'] != p]
+                if others:
+                    sh.emit('delh %s %s %d' % (sh.ptok(p), K, rnd.choice(others)))
             else:
                 sh.emit('del %s %s %s' % (sh.ptok(p), K, sh.random_key()))
             sh.emit('chk %s %s' % (sh.ptok(p), K))
@@ -884,6 +889,8 @@ def compare(a, b):
     """a = implementation's answer, b = the model's or the specification's"""
     if a is None or b is None:
         return a == b
+    if b == 'NOCRASH':
+        return not a.startswith('CRASH')
     if b == 'NOTRACE':
         if a.startswith('CRASH'):
             return False
